@@ -376,18 +376,21 @@ def r5_copied_iter_more(s, log):
 
 def r7_any_all(body):
     """R7: `E.iter().any(|&x| P)`  ->  block with an early-exit index loop whose result is `exists i. P[x:=E[i]]`;
-           `.all` dually.  The loop carries a rule-generated invariant (checked by Verus like any other)."""
+           `.all` dually.  The loop carries a rule-generated invariant (checked by Verus like any other).
+           E may also be a sub-slice `A[lo..hi]` / `A[lo..=hi]`; it is then bound by reference (`let __aN = &A[lo..=hi];`)."""
     log = []
     s = body
     while True:
         m = None
-        for mm in _code_find(s, re.compile(r'([A-Za-z_][\w\.]*(?:\(\))?)\.iter\(\)\.(any|all)\(\s*(?:#\[inline\(always\)\]\s*)?\|\s*(&?)\s*([A-Za-z_]\w*)\s*\|')):
+        for mm in _code_find(s, re.compile(r'([A-Za-z_][\w\.]*(?:\(\))?(?:\[[^\[\]]*\])?)\.iter\(\)\.(any|all)\(\s*(?:#\[inline\(always\)\]\s*)?\|\s*(&?)\s*([A-Za-z_]\w*)\s*\|')):
             m = mm
             break
         if not m:
             break
         src, which, amp, x = m.groups()
         po = s.index('(', m.start() + len(src) + len('.iter().') + len(which))
+        if src.endswith(']'):
+            src = '&' + norm_ws(src)   # R7 on a sub-slice `A[lo..hi]` / `A[lo..=hi]`: bind it by reference
         pc = match_delim(s, po)
         pred = s[m.end():pc].strip()
         _counter[0] += 1
@@ -540,6 +543,9 @@ SELFTEST = [
     (r8_all_block,
      '{ let ok = self.representation().iter().all(#[inline(always)] |&pos| { let v = (total & pos) == 0; total |= pos; v }); ok }',
      ['let __a1 = self.representation(); let mut __k1: usize = 0; let mut __r1 = true; while __k1 < __a1.len() { let pos = __a1[__k1]; let __c1: bool = { let v = (total & pos) == 0; total |= pos; v }; __k1 += 1; if !__c1 { __r1 = false; break; } } __r1 }']),
+    (r7_any_all,
+     '{ if unlikely(blockhash[start +\n 1..=end].iter().any(|x| *x != ch)) { return false; } true }',
+     ['= &blockhash[start + 1..=end]; let mut __k', 'forall|__j: int| 0 <= __j < __k', '!(*(&__a']),
     (r5_copied_iter,
      '{ let mut iter = bytes.iter().copied(); raw = iter.next(); }',
      ['let mut iter = bytes.iter();', 'raw = (match iter.next() { Some(__r) => Some(*__r), None => None });']),
